@@ -444,6 +444,10 @@ pub fn run(ctx: &Ctx) -> Outcome {
             });
         }
     }
+    // every hostile name (the generator's helper names, their uniquified forms, trait and prelude-adjacent names) in
+    // every role, and the uniquifier chains
+    texts.extend(crate::c05::naming_sources());
+    texts.extend(crate::c05::chain_sources());
     // every short identifier (underscore-initial, letter-less, with digits) in every naming role
     texts.extend(crate::c10::name_probe_files());
     // every ordered pair of related names (prefixes, case variants, ...) in every pair of roles
